@@ -13,6 +13,7 @@
 (*              (1-based positions in T.labels) and the partial result /     *)
 (*              count arrays the kernel returned for it                      *)
 (*   T.final    what the call returned, per label of T.labels                *)
+(*   T.kcount   GroupBy.count_ikey(mask) per label of T.labels               *)
 (* The trace is replayed through Factorize, Resolve, ChunkReduce(i),        *)
 (* MergePiece; every logged partial is compared with the machine's partial   *)
 (* for the same (piece, label), the returned values with the merged state.   *)
@@ -74,7 +75,10 @@ FinalOk == /\ Len(T.final) = Len(labels)
                     n == IF kernel = "size" THEN Len(GroupVals(labels[g])) ELSE DefCount(GroupVals(labels[g]))
                 IN  /\ ResultOf(kernel, combined[g]) = d            \* the machine agrees with the definition
                     /\ (n > 0 \/ SumLike(kernel) \/ T.nonull = 0) => T.final[g] = d
-TDone == /\ pc = "done" /\ ~oob /\ FinalOk
+(* GroupBy.count_ikey(mask): rows selected per label (same Resolve, kernel "size") *)
+KeyCountOk == /\ Len(T.kcount) = Len(labels)
+              /\ \A g \in 1..Len(labels) : T.kcount[g] = Len(GroupVals(labels[g]))
+TDone == /\ pc = "done" /\ ~oob /\ FinalOk /\ KeyCountOk
          /\ PrintT(<<"ACCEPT", tid>>)
          /\ pc' = "accepted" /\ l' = l + 1
          /\ UNCHANGED <<tid, hvars, gvars, first, pieces, partial, todo, combined, nmerged, oob>>
